@@ -3,10 +3,10 @@ CONSTANTS
  Players = {a, b, c}
  MinP = 2
  MaxHands = 1
- Levels <- LevelsDef
+ Levels <- LevelsSmall
  Quiet = FALSE
- ExtSetUp = TRUE
- WithLeave = FALSE
+ ExtSetUp = FALSE
+ WithLeave = TRUE
  KF_OpenAfterClose = FALSE
  KF_GuardOnVisibleOnly = FALSE
 KF_SurvivorsOnly = FALSE
